@@ -350,6 +350,8 @@ def _shortcut_by_scenario(prog, rep, sc, ds):
 
 
 def check(prog, rep):
+    from . import pitfalls as _pit
+    rep.section(_pit.report, prog, rep, 'R16.P', ['src/optyx/problem.py'], ('P1',))
     kinds = prog.expression_kinds()
     # ------------------------------------------------------------------ R16.1
     for k in kinds:
